@@ -180,6 +180,12 @@ class YAMLPath:
         ):
             self.original = path_now[
                 0:len(path_now) - len(removable_segment) + 1]
+        else:
+            # The segment is spelled otherwise inside a path than alone (an
+            # Anchor is bracketed after the first segment):  rebuild the path
+            # from the segments which remain.
+            self.original = YAMLPath._stringify_yamlpath(
+                segments, self.separator)
 
         return popped_segment
 
